@@ -263,6 +263,7 @@ def install(engine):
         return ObjV(App("sevnamed", (a, b), REF), "vsg.severity.error")
 
     engine.spec_funcs["sevnamed"] = sevnamed
+    engine.spec_imports["deprecated_rule"] = "vsg.deprecated_rule"
 
 
 # ---------------------------------------------------------------------------------------------- unknown rule names (C12, last sentence)
@@ -315,13 +316,15 @@ CONTRACTS.update({
             "'severity' in result",
             # every value is the attribute's own value (the very object: nothing is converted on the way out)
             "implies(ga in self.configuration, result[ga] is self.__dict__[ga])",
-            # the rule itself is not touched
+            # the rule itself is not touched: only the new dictionary is written
             "(ga in self.__dict__) == old(ga in self.__dict__) and implies(ga in self.__dict__, self.__dict__[ga] is old(self.__dict__[ga]))",
+            "only_dict(result)",
         ],
         loops={
             1: dict(
                 invariant=[
                     "dConfig is not self.__dict__",
+                    "only_dict(dConfig)",
                     "(ga in dConfig) == (ga in self.configuration[:_i])",
                     "implies(ga in self.configuration[:_i], dConfig[ga] is self.__dict__[ga])",
                     "not ('severity' in dConfig) or 'severity' in self.configuration[:_i]",
@@ -331,3 +334,28 @@ CONTRACTS.update({
         },
     ),
 })
+
+
+# the whole rule list: one entry per rule that is not deprecated, under the rule's id (gr: any key)
+# NOT LOADED (work in progress): 31 of 33 obligations discharge; the step of the two quantified invariants for a rule that is not
+# deprecated stays open.  Nothing is claimed from it.
+PENDING = {}
+PENDING.update({
+    "vsg.rule_list.rule_list.get_configuration": dict(
+        returns="obj:builtins.dict",
+        fields={"vsg.rule_list.rule_list.rules": "list[obj:vsg.rule.Rule]"},
+        requires=["forall(lambda k: forall(lambda m: self.rules[k].configuration[m] in self.rules[k].__dict__, 0, len(self.rules[k].configuration)), 0, len(self.rules))", "ga != 'severity'"],
+        modifies=["heap:dict.__keys__", "heap:dict.__vals__"],
+        locals={"oRule": RULE},
+        ensures=[
+            # a key of the result is the id of a rule that is not deprecated, and every such rule has its entry
+            "(gr in result) == exists(lambda k: not isinstance(self.rules[k], deprecated_rule.Rule) and self.rules[k].unique_id == gr, 0, len(self.rules))",
+        ],
+        loops={1: dict(invariant=[
+            "(gr in dConfiguration) == exists(lambda k: not isinstance(self.rules[k], deprecated_rule.Rule) and self.rules[k].unique_id == gr, 0, _i)",
+            "forall(lambda k: forall(lambda m: self.rules[k].configuration[m] in self.rules[k].__dict__, 0, len(self.rules[k].configuration)), 0, len(self.rules))",
+            "forall(lambda k: dConfiguration is not self.rules[k].__dict__, 0, len(self.rules))",
+        ])},
+    ),
+})
+GHOSTS["gr"] = "str"
